@@ -3,11 +3,10 @@ package main
 import (
 	"os"
 
-	"strconv"
 	"verifmc/engine/bfs"
 	"verifmc/engine/ev"
 	"verifmc/engine/reg"
-	c22 "verifmc/props/c22"
+	_ "verifmc/props/c22"
 )
 
 func main() {
@@ -15,17 +14,6 @@ func main() {
 		out := os.Stdout
 		os.Stdout = os.Stderr
 		bfs.WorkerMain(os.Args[2], os.Stdin, out)
-		return
-	}
-	if len(os.Args) > 3 && os.Args[1] == "shard" {
-		i, _ := strconv.Atoi(os.Args[2])
-		n, _ := strconv.Atoi(os.Args[3])
-		c22.DebugShard(ev.Tier(), i, n)
-		return
-	}
-	if len(os.Args) > 1 && os.Args[1] == "count" {
-		c22.DebugCount("quick")
-		c22.DebugCount("thorough")
 		return
 	}
 	c, _ := reg.Get("C22")
